@@ -46,3 +46,15 @@ Print Assumptions C02_get_root_data.
 Theorem C02_size_bytes_is_image_length : stmt_msg_size_bytes_enc.
 Proof. exact msg_size_bytes_enc. Qed.
 Print Assumptions C02_size_bytes_is_image_length.
+
+From Sbepp Require Import Cursor CursorSpec CursorProofs.
+
+(* ... and at ANY depth: the field / data getters of the entry reached by any
+   path of (group, entry index) steps return the encoder's bytes *)
+Theorem C02_get_field_any_path : stmt_get_field_any_path_enc.
+Proof. exact get_field_any_path_enc. Qed.
+Print Assumptions C02_get_field_any_path.
+
+Theorem C02_get_data_any_path : stmt_get_data_any_path_enc.
+Proof. exact get_data_any_path_enc. Qed.
+Print Assumptions C02_get_data_any_path.
